@@ -72,7 +72,7 @@ def delegateLoop (f : Fss) (p : Str) : List Entry → Fss × Res (Option Nat) ×
 
 /-- forward the primitive to member `i` with path `path` -/
 def onMember (s : MState) (i : Nat) (pr : Prim) (path : Str) : MState × Out × List Call :=
-  let m := memberCall s.fs i pr.meth path (pr.memberOp path)
+  let m := forward s.fs i pr path
   ({ s with fs := m.1 }, m.2.1, [m.2.2])
 
 /-- `fs = self._delegate(path)`, then `onNone` when there is none, else forward with `callPath` -/
@@ -168,26 +168,6 @@ def scanFirstLoop (f : Fss) (p : Str) : List Entry → Bool → Fss × Out × Li
       let r := scanFirstLoop f' p es true
       (r.1, r.2.1, c :: r.2.2)
 
-/-- `len(set(mode)) == len(mode)` -/
-def noRepeat : Str → Bool
-  | [] => true
-  | c :: cs => !cs.contains c && noRepeat cs
-
-/-- `Mode(mode)` (the constructor validates): non-empty, characters among `rwxtab+`, first
-character among `rwxa`, not both `t` and `b`, and (since 10e1506, the rules of `io.open`) no
-repeated character and exactly one of `r w x a`; `false` = `ValueError` -/
-def modeOk (m : Str) : Bool :=
-  match m with
-  | [] => false
-  | c :: _ =>
-    m.all (fun x => modeValidChars.contains x) && ['r', 'w', 'x', 'a'].contains c &&
-      !(m.contains 't' && m.contains 'b') && noRepeat m &&
-      (['r', 'w', 'x', 'a'].filter fun x => m.contains x).length == 1
-
-/-- `check_writable(mode)` = `Mode(mode).writing` -/
-def checkWritable (m : Str) : Bool :=
-  m.contains 'w' || m.contains 'a' || m.contains '+' || m.contains 'x'
-
 def normRes (p : Str) : Res Str :=
   match normpath p with
   | .err e => .err e
@@ -199,7 +179,8 @@ def prim (s : MState) (pr : Prim) : MState × Out × List Call :=
   match pr with
   -- reads: the first member (highest priority) that contains the path
   | .getinfo p => checked s (viaDelegate s pr p (normRes p) nf)
-  | .readbytes p | .getsize p | .gettype p | .openRead p => checked s (viaDelegate s pr p (.ok p) nf)
+  | .readbytes p | .getsize p | .gettype p | .openRead p | .readtext p | .download p =>
+    checked s (viaDelegate s pr p (.ok p) nf)
   | .isdir p | .isfile p => checked s (viaDelegate s pr p (.ok p) (.ok (.bool false)))
   -- removals: the member that contains the path (not necessarily the write member)
   | .remove p | .removedir p => checked s (viaDelegate s pr p (.ok p) nf)
@@ -212,9 +193,11 @@ def prim (s : MState) (pr : Prim) : MState × Out × List Call :=
        ({ s with fs := r.1 }, r.2.1, r.2.2))
   -- creating / writing: the write member, `ResourceReadOnly` without one
   | .makedir p _ | .makedirs p _ | .setinfo p | .openWrite p | .openAppend p _
-  | .upload p _ | .writebytes p _ =>       -- `upload`/`writebytes` call `self.check()` since 7868a16
+  | .upload p _ | .writebytes p _ | .writetext p _ =>   -- these call `self.check()` since 7868a16
     checked s (viaWrite s pr p)
-  | .openbin p m =>
+  -- `openbin` and `open`: `check()`, then `check_writable(mode)` (which validates the mode) decides
+  -- between the write member and the member containing the path
+  | .openbin p m | .open_ p m _ =>
     checked s
       (if !modeOk m then (s, .err .ValueError, [])
        else if checkWritable m then viaWrite s pr p else viaDelegate s pr p (.ok p) nf)
